@@ -9,7 +9,7 @@ use crate::sim::{Event, Rng, Sim};
 use crate::world::{self, risk_metas, BankInfo, OracleKind, World};
 use anchor_lang::prelude::{AccountMeta, Pubkey};
 use fixed::types::I80F48;
-use marginfi_type_crate::types::{Balance, Bank, MarginfiAccount};
+use marginfi_type_crate::types::{Balance, Bank, BankConfigOpt, MarginfiAccount};
 use num_traits::ToPrimitive;
 
 #[derive(Clone, Debug)]
@@ -503,6 +503,52 @@ pub fn act_time(sim: &Sim, ctx: &mut Ctx) -> Event {
 
 /// Classic liquidation attempt: pick a (liquidatee, asset bank, liability bank) and a liquidator.
 pub fn act_liquidate(sim: &Sim, ctx: &mut Ctx) -> Option<Tx> {
+    liquidate_tx(sim, ctx, None)
+}
+
+/// Drill: a liquidatee holding a SECOND collateral position in a bank that the group admin has
+/// made reduce-only and whose feed has gone stale; the liquidator seizes the other collateral.
+/// Reduce-only collateral counts in full for liquidation purposes, and an unusable price of any
+/// of the account's banks makes the assessment impossible - the attempt must be refused.
+pub fn drill_liquidate_with_stale_reduce_only_collateral(sim: &mut Sim, ctx: &mut Ctx) -> Option<Tx> {
+    let mut cands: Vec<(usize, usize, Pubkey, Vec<Pubkey>)> = Vec::new();
+    for (ui, u) in ctx.world.users.iter().enumerate() {
+        for (gi, ma) in &u.maccounts {
+            let Some(a) = model::account_of(&sim.store, ma) else { continue };
+            let bals = active_balances(&a);
+            let assets: Vec<Pubkey> = bals.iter().filter(|b| i80(b.asset_shares) >= I80F48::ONE && ctx.world.bank_info(&b.bank_pk).map(|i| i.oracle != OracleKind::Fixed && i.staked.is_none()).unwrap_or(false)).map(|b| b.bank_pk).collect();
+            let has_l = bals.iter().any(|b| i80(b.liability_shares) >= I80F48::ONE);
+            if has_l && assets.len() >= 2 {
+                cands.push((ui, *gi, *ma, assets));
+            }
+        }
+    }
+    if cands.is_empty() {
+        return None;
+    }
+    let (lui, gi, liquidatee, assets) = ctx.rng.pick(&cands).clone();
+    let third = *ctx.rng.pick(&assets);
+    let g = ctx.world.groups[gi].clone();
+    let opt = BankConfigOpt { operational_state: Some(marginfi_type_crate::types::BankOperationalState::ReduceOnly), ..Default::default() };
+    let o = sim.apply(Event::Tx(Tx::one("group_admin", ix::configure_bank(g.key, g.admins.admin, third, opt))))?;
+    if !o.ok() {
+        return None;
+    }
+    // its feed stops: last published long before the bank's maximum age
+    let info = ctx.world.bank_info(&third)?.clone();
+    let bank = model::bank_of(&sim.store, &third)?;
+    let old = sim.clock.unix_timestamp - crate::refm::max_age_of(&bank) - 5;
+    let ev = match info.oracle {
+        OracleKind::Pyth => Event::SetAccount { key: info.oracle_key, account: Some(fixtures::pyth_account(info.feed_id, &world::pyth_from_micro(info.price_micro, info.expo, 10, 0, old))), why: "oracle_stale" },
+        OracleKind::Swb => Event::SetAccount { key: info.oracle_key, account: Some(fixtures::swb_account(&world::swb_from_micro(info.price_micro, 10, old))), why: "oracle_stale" },
+        OracleKind::Fixed => return None,
+    };
+    sim.apply(ev);
+    sim.stats.fault("drill_liquidation_with_stale_reduce_only_collateral");
+    liquidate_tx(sim, ctx, Some((lui, gi, liquidatee, third)))
+}
+
+fn liquidate_tx(sim: &Sim, ctx: &mut Ctx, force: Option<(usize, usize, Pubkey, Pubkey)>) -> Option<Tx> {
     let accounts: Vec<(usize, usize, Pubkey)> = ctx
         .world
         .users
@@ -525,13 +571,20 @@ pub fn act_liquidate(sim: &Sim, ctx: &mut Ctx) -> Option<Tx> {
     if cands.is_empty() {
         return None;
     }
-    let (lui, gi, liquidatee) = *ctx.rng.pick(&cands);
+    let (lui, gi, liquidatee) = match force {
+        Some((a, b, c, _)) => (a, b, c),
+        None => *ctx.rng.pick(&cands),
+    };
+    let avoid = force.map(|f| f.3);
     let la = model::account_of(&sim.store, &liquidatee)?;
     let bals = active_balances(&la);
     let assets: Vec<&Balance> = bals
         .iter()
-        .filter(|b| i80(b.asset_shares) >= I80F48::ONE)
+        .filter(|b| i80(b.asset_shares) >= I80F48::ONE && Some(b.bank_pk) != avoid)
         .collect();
+    if assets.is_empty() {
+        return None;
+    }
     let liabs: Vec<&Balance> = bals
         .iter()
         .filter(|b| i80(b.liability_shares) >= I80F48::ONE)
@@ -1494,6 +1547,8 @@ pub fn step_mkt(sim: &mut Sim, ctx: &mut Ctx) {
         9 => {
             if ctx.rng.chance(1, 6) {
                 drill_emode_two_debt_liquidation(sim, ctx)
+            } else if ctx.swarm.fault_oracle_skip > 0 && ctx.rng.chance(1, 6) {
+                drill_liquidate_with_stale_reduce_only_collateral(sim, ctx)
             } else {
                 act_liquidate(sim, ctx)
             }
